@@ -29,7 +29,8 @@ from .values import Arr2V, Blk, EnumV, ExcV, Lit, MapV, Obj, SeqV, SetV, Sym, Un
 class Scenario:
     """One type-case of the parameters: `make(ex)` builds the (symbolic) arguments."""
 
-    def __init__(self, name, make, requires=(), note="", concretize=None):
+    def __init__(self, name, make, requires=(), note="", concretize=None, thorough_only=False):
+        self.thorough_only = thorough_only  # explored only by the thorough tier (cost)
         self.name = name
         self.make = make
         self.requires = list(requires)
